@@ -1228,6 +1228,21 @@ func (x *Exec) call(fr *frame, b *ssa.BasicBlock, i int, pred *ssa.BasicBlock, i
 	eff := func(kind string, res *Term) {
 		st.effects = append(st.effects, Effect{Kind: kind, Name: name, Args: args, Res: res, Fn: funcName(fr.fn), At: x.at(ins.Pos()), NAtoms: len(st.atoms), Pos: ins.Pos()})
 	}
+	// library functions that index their argument: slices.Insert(s, i, …) needs
+	// 0 ≤ i ≤ len(s) like s[i:], slices.Delete/Replace(s, i, j, …) like s[i:j]
+	if x.TraceBounds && len(args) >= 2 {
+		hi := constTerm("_")
+		switch name {
+		case "slices.Delete", "slices.Replace":
+			if len(args) >= 3 {
+				hi = args[2]
+			}
+			fallthrough
+		case "slices.Insert":
+			b := *args[0]
+			st.effects = append(st.effects, Effect{Kind: "bounds", Name: "libslice", Args: []*Term{&b, args[1], hi, constTerm("_")}, Fn: funcName(fr.fn), At: x.at(ins.Pos()), NAtoms: len(st.atoms), Pos: ins.Pos()})
+		}
+	}
 	result := func(op string) *Term {
 		return &Term{Op: op, Name: name, Args: args, Type: ins.Type()}
 	}
